@@ -19,7 +19,11 @@ _TABLE = None
 
 def builtin_table():
     """name -> dict(kind='fixed'|'param', nq, nparams, hermitian, ref) enumerated from
-    the library's own gate table, so a new entry is picked up automatically."""
+    the library's own gate table, so a new entry is picked up automatically.
+
+    Nothing private is relied upon: fixed gates are the module-level gate objects of the built-in gate module,
+    parametric gates are its module-level callables that hand back such a gate object when called with some number
+    (1..4) of real parameters; the number of parameters is found by calling."""
     global _TABLE
     if _TABLE is not None:
         return _TABLE
@@ -28,16 +32,21 @@ def builtin_table():
 
     t = {}
     for name, obj in vars(B).items():
+        if name.startswith("_"):
+            continue
         if isinstance(obj, G.MatrixFactoryGate):
             t[name] = dict(kind="fixed", nq=obj.num_qubits, nparams=0, hermitian=obj.is_hermitian, ref=obj)
-        elif callable(obj) and getattr(obj, "__name__", "") == "_factory" and obj.__closure__:
-            cells = {c: v.cell_contents for c, v in zip(obj.__code__.co_freevars, obj.__closure__)}
-            if "matrix_factory" not in cells:
-                continue
-            t[name] = dict(
-                kind="param", nq=cells["num_qubits"], hermitian=cells["is_hermitian"], ref=obj,
-                nparams=len(inspect.signature(cells["matrix_factory"]).parameters),
-            )
+        elif callable(obj) and not isinstance(obj, type) and getattr(obj, "__module__", None) == B.__name__:
+            for k in (1, 2, 3, 4):
+                try:
+                    g = obj(*[0.25 * (i + 1) for i in range(k)])
+                    if not isinstance(g, G.MatrixFactoryGate) or len(g.params) != k:
+                        continue
+                    g.matrix  # a wrong parameter count shows at the latest here
+                except Exception:
+                    continue
+                t[name] = dict(kind="param", nq=g.num_qubits, hermitian=g.is_hermitian, ref=obj, nparams=k)
+                break
     _TABLE = t
     return t
 
